@@ -50,6 +50,7 @@ class BitReader:
         self.total = len(data) * 8
         self.pos = start_bit
         self.limit = self.total if limit_bits is None else min(self.total, limit_bits)
+        self.flags = set()      # structural facts about this decode, used only to classify known mechanisms
 
     def get(self, nbits):
         p = self.pos
@@ -229,6 +230,8 @@ def _dec(r, t):
         return out
     if isinstance(t, pydsdl.CompositeType):
         if isinstance(t, pydsdl.DelimitedType):
+            if r.pos + t.delimiter_header_type.bit_length > r.limit:
+                r.flags.add("delimiter_header_beyond_end")
             size = r.get(t.delimiter_header_type.bit_length)
             start = r.pos
             remaining = max(0, (r.limit - start) // 8) if start <= r.limit else 0
@@ -236,6 +239,9 @@ def _dec(r, t):
                 raise Invalid("delimiter_header", "%d > remaining %d" % (size, remaining))
             sub = BitReader(b"", 0, 0)
             sub.v, sub.total, sub.pos, sub.limit = r.v, r.total, start, start + size * 8
+            sub.flags = r.flags
+            if size * 8 > t.inner_type.extent:
+                r.flags.add("delimiter_header_larger_than_extent")
             v = _dec_body(sub, t.inner_type)
             r.pos = start + size * 8
             return v
@@ -262,9 +268,11 @@ def _dec_body(r, t):
     return v
 
 
-def decode(t, data):
+def decode(t, data, flags=None):
     """Top-level deserialization with implicit zero extension / truncation. Returns (value, consumed_bytes_model)."""
     r = BitReader(bytes(data))
+    if flags is not None:
+        r.flags = flags
     v = _dec_body(r, inner(t))
     return v, min((r.pos + 7) // 8, len(data))
 
